@@ -52,6 +52,11 @@ DTYPES = ["float64", "float64", "float64", "float32", "int64", "int32", "int16",
 SYSTEMS = ["mks", "cgs", "imperial", "galactic", None]
 
 
+# calls documented to return a copy: their result is then mutated in place (result_then_inplace)
+COPYING_RESULT = {"to", "in_units", "to_value", "to_unitobj", "in_base", "in_cgs", "in_mks", "to_equivalent", "to_with_equiv",
+                  "copy", "deepcopy", "pickle"}
+
+
 def _mods():
     import unyt
     import unyt.array as ua
@@ -349,6 +354,18 @@ def build_templates():
     return TT
 
 
+def family(name):
+    """A template, its copying twin and the templates whose twin it is."""
+    T = templates()
+    fam = {name}
+    if T[name].twin:
+        fam.add(T[name].twin)
+    for n, t in T.items():
+        if t.twin in fam:
+            fam.add(n)
+    return sorted(fam)
+
+
 _TT = None
 
 
@@ -490,6 +507,19 @@ class Gen18:
             p["c"] = r.choice([2.0, 3, 0.5, 0, 1])
         if "idx" in t.params:
             p["idx"] = r.choice([0, 1, [0, 2], 2])
+        sticky = getattr(self, "sticky", None)
+        if sticky and kind == "none":
+            for key in ("equiv", "kw", "sys"):
+                if key in sticky and key in p:
+                    p[key] = sticky[key]
+            if "equiv" in p:
+                for eq in EQUIV:
+                    if eq[2] == p["equiv"]:
+                        xunit, to_unit, p["kw"] = eq[0], eq[1], dict(eq[3])
+                        xdim = self.dim_of(xunit)
+                        if "u" in p:
+                            p["u"] = to_unit
+                        break
         # role -> spec
         spec = {}
         for role in t.roles:
@@ -789,10 +819,52 @@ class Sim18:
         self.cells.append((cell, bool(nontrivial)))
         # ---------------- oracle A
         self.oracle_a(op, t, before, after, tgt_idx, raised, out)
+        if self.numpy_tainted and tgt_idx is not None and not raised:
+            # numbers NumPy itself left behind in a failed call flow on into whatever is computed from them
+            if any(w.ents.index(e) in self.numpy_tainted for r, e in ents.items() if r != t.target):
+                troot = w.ents[tgt_idx].root
+                self.numpy_tainted.update(j for j, e2 in enumerate(w.ents) if e2.root == troot)
         # ---------------- oracle C
         if twin is not None and not raised and tgt_idx is not None:
             self.oracle_c(op, t, twin, copies, p, tgt_ent, before["ents"][tgt_idx])
+        # ---------------- result of a copying call, then an in-place call on that result
+        if not raised and not self.violations and op["t"] in COPYING_RESULT:
+            self.result_then_inplace(op, t, res, after)
         return out
+
+    def result_then_inplace(self, op, t, res, after):
+        """`b = a.to(u); b *= 2` is a two-call program whose second call has
+        b as its only target: nothing else on the heap may change.  (It does
+        when the 'copy' the first call returned shares a's buffer.)"""
+        w = self.w
+        done = 0
+        for r in (res if isinstance(res, tuple) else (res,)):
+            if not isinstance(r, np.ndarray) or r.size == 0 or not r.flags.writeable or r.dtype.kind == "b":
+                continue
+            try:
+                with warnings.catch_warnings():
+                    warnings.simplefilter("ignore")
+                    with np.errstate(all="ignore"):
+                        try:
+                            r *= 2
+                        except Exception:  # offset / logarithmic units refuse: another in-place call then
+                            r.fill(1)
+                done += 1
+            except Exception:
+                continue
+        if not done:
+            return
+        self.stats["faults"]["result_mutated_in_place"] = self.stats["faults"].get("result_mutated_in_place", 0) + 1
+        again = snapshot(w)
+        for i, (b, a) in enumerate(zip(after["ents"], again["ents"])):
+            bad = [f for f in ("dtype", "shape", "units", "bytes") if b[f] != a[f]]
+            if bad:
+                self.violate("A-inplace-on-result-changed-input",
+                             {"call": op, "then": "result *= 2 (or result.fill(1))", "object": i, "changed": bad,
+                              "before": {"vals": repr(b["vals"]), "units": b["units"][:4]},
+                              "after": {"vals": repr(a["vals"]), "units": a["units"][:4]}},
+                             [t.cat, op["t"], ",".join(bad)])
+                return
 
     def invoke(self, fn, A, p, warn):
         with warnings.catch_warnings():
@@ -1021,9 +1093,16 @@ def simulate(chan, spec):
         cells = gen.cells
         # thorough coverage: run ids sweep the grid systematically; payloads are seeded
         first = (spec["run"] * 7919) % len(cells)
+        prev_failed = None
         for c in range(cfg["n_calls"]):
             if c == 0:
                 cell = cells[first]
+            elif prev_failed is not None and rng.random() < 0.5:
+                # once the fault is over: the same call, or its copying / in-place sibling, with the same
+                # parameters and no fault - state a failed call left behind outside the heap (module-level
+                # objects, memo tables) can only show in what such a call does
+                gen.sticky = prev_failed[1]
+                cell = (rng.choice(prev_failed[0]), "-", "none")
             elif rng.random() < cfg["p_fault"]:
                 if rng.random() < 0.5:
                     cell = cells[rng.randrange(len(cells))]
@@ -1037,12 +1116,20 @@ def simulate(chan, spec):
                 name = sorted(templates())[rng.randrange(len(templates()))]
                 cell = (name, "-", "none")
             stop = False
+            nfail = len(sim.failed_calls)
+            last_call = None
             for op in gen.group(sim.w, cell):
                 sim.step(op, len(executed))
                 executed.append(op)
+                if op["k"] == "call":
+                    last_call = op
                 if sim.violations:
                     stop = True
                     break
+            gen.sticky = None
+            prev_failed = None
+            if last_call is not None and len(sim.failed_calls) > nfail:
+                prev_failed = (family(last_call["t"]), dict(last_call.get("p", {})))
             if stop:
                 break
     # ---------------- oracle B: failed calls are no-ops
